@@ -53,6 +53,18 @@ def gen_cases(ctx):
                                   "placement": "inpkg-test" if inpkg else "outpkg", "td": td, "gomod": "plain", "srckind": "ordinary",
                                   "drvseed": rng.randrange(1, 1 << 20), "gomaxprocs": [2, 8, 16][ci % 3]})
                     ci += 1
+    # fixed focus cases: every variadic method form under every option that changes how the variadic arguments are carried
+    for inpkg in (True, False):
+        g = gosrc.Gen(random.Random(ctx.seed * 31 + inpkg), inpkg_only=inpkg)
+        cat = gosrc.catalogue(g)
+        vidx = [k for k, i in enumerate(cat) if i["feature"].startswith("method.variadic") or i["feature"].endswith(".variadic") and i["feature"].startswith("shape.basic")][:CHUNK]
+        if not vidx:
+            continue
+        for t, tds in (("testify", [{"unroll-variadic": True}, {"unroll-variadic": False}, {}]), ("matryer", [{"stub-impl": True, "with-resets": True}, {}])):
+            for td in tds:
+                cases.append({"kind": "catalogue", "inpkg": inpkg, "genseed": ctx.seed * 31 + inpkg, "idx": vidx, "template": t, "formatter": "goimports",
+                              "placement": "inpkg-test" if inpkg else "outpkg", "td": td, "gomod": "plain", "srckind": "ordinary",
+                              "drvseed": rng.randrange(1, 1 << 20), "gomaxprocs": 8, "all_methods": True})
     return cases
 
 
@@ -95,7 +107,7 @@ def eval_case(ctx, case):
     reg, skipped = drvrun.registration(info, usable, case, inpkg)
     drvrun.install_driver(root, info, ["core", "matryer", "conc"], reg)
     hist = 25 if ctx.tier == "quick" else 120
-    env = {"DRV_SEED": str(case["drvseed"]), "DRV_HISTORIES": str(hist), "DRV_METHODS": "3", "GOMAXPROCS": str(case["gomaxprocs"]),
+    env = {"DRV_SEED": str(case["drvseed"]), "DRV_HISTORIES": str(hist), "DRV_METHODS": "12" if case.get("all_methods") else "3", "GOMAXPROCS": str(case["gomaxprocs"]),
            "GORACE": "halt_on_error=0 log_path=%s" % os.path.join(root, "race.log")}
     r, findings, summary, races = drvrun.run_tests(root, info, "^TestDrvConcurrent$", env, race=True, timeout=2400)
     td = case.get("td") or {}
